@@ -16,6 +16,10 @@ func (du *decodeUnit) cycle(app risc.Application, inBus *comp.SimpleBus[int32], 
 	if !exists {
 		return
 	}
+	if int(pc)/4 >= len(app.Instructions) {
+		// The pipeline was redirected past the last instruction
+		return
+	}
 	runner := app.Instructions[pc/4]
 	outBus.Add(risc.InstructionRunnerPc{
 		Runner: runner,
